@@ -17,7 +17,7 @@ RULE = ("per configuration (every output type x formats that together use every 
         "sink states: directory absent, no permission as non-root, /dev/full (ENOSPC), unread datagram socket with a full queue): a "
         "traced dry run lists the I/O system calls issued between wrapper entry and the recording real-exec; then EVERY such call is "
         "failed once with each plausible errno for that call (all single faults; every errno also persistently from that call on, except EINTR), short transfers (write/send returning 1 or 10, read returning 0 or 1), EAGAIN (and "
-        "EINTR on write/send/connect) also persistently (from that call on), and pairs of faults on different calls are sampled. Oracle: the real exec is reached exactly once with intact "
+        "EINTR on write/send/connect) also persistently (from that call on), and pairs of faults on different calls are sampled; a second pass repeats the interrupted (EINTR/EAGAIN) and short transfers on the AddressSanitizer build (a retry resuming from the wrong offset). Oracle: the real exec is reached exactly once with intact "
         "arguments, its (-1, EACCES) comes back, exit status 0, no signal delivered inside the window, completion within 10 s (a run "
         "over the bound is repeated three times). non-trivial = the injected fault was hit inside the window (the syscall stream "
         "after it differs from the dry run or the call is the targeted one); distinct by (config, syscall, ordinal, errno, mode)")
@@ -199,19 +199,54 @@ def worker(args):
                     local.known_hit(f.key, f.what)
                 elif not fails:
                     fails.append({"case": case, "what": "[%s] %s" % (cfg["name"], f.what), "observed": f.observed, "expected": None})
+    # second pass, memory-checked build: interrupted and short transfers are where retry loops live -- a retry that resumes from the
+    # wrong offset reads or writes outside its buffer without failing the call
+    os_a = trace.OneShot(ctx.run, _W["build_asan"], "a%d" % idx)
+    for cfg in cfgs[idx % 2::2] if ctx.quick else cfgs:
+        cfg_a = dict(cfg)
+        os_a.write_scenario(scenario_ops(cfg_a, os_.out))
+        rc, events = os_a.run_traced([], timeout=30)
+        calls, signals = os_a.parse_log()
+        try:
+            judge(rc, events, signals, "memory-checked build, no fault injected")
+        except Failure as f:
+            if not fails:
+                fails.append({"case": {"cfg": cfg, "plan": [], "asan": True}, "what": "[%s, memory-checked build] %s" % (cfg["name"], f.what), "observed": f.observed, "expected": None})
+            continue
+        window = [c for c in calls if c["phase"] == 1 and c["name"] in ERRS]
+        plans = []
+        for c in window:
+            for e in ("EINTR", "EAGAIN"):
+                if e in ERRS[c["name"]]:
+                    plans.append([(c["name"], c["ordinal"], e, False)])
+            for rv in SHORT.get(c["name"], []):
+                plans.append([(c["name"], c["ordinal"], "retval=%d" % rv, False)])
+        for plan in plans:
+            case = {"cfg": cfg, "plan": plan, "asan": True}
+            try:
+                hit = run_plan(os_a, plan, calls)
+                local.count(("asan", cfg["name"]) + tuple(plan[0]) if hit else None,
+                            ["config:" + cfg["oname"], "memory-checked-pass", "syscall:" + plan[0][0], "errno:" + plan[0][2]] + (["hit"] if hit else ["not-reached"]),
+                            sample={"config": cfg["name"], "build": "ts-asan", "fault": [list(p) for p in plan]})
+            except Failure as f:
+                if local.is_known(f.key):
+                    local.known_hit(f.key, f.what)
+                elif not any(x["case"].get("asan") for x in fails):
+                    fails.append({"case": case, "what": "[%s, memory-checked build] %s" % (cfg["name"], f.what), "observed": f.observed, "expected": None})
     return local.export(), fails
 
 
 def main():
     ctx = Ctx(PID, "fault_enumeration", RULE)
-    b = ctx.run.build("ts-plain")
+    bl = ctx.run.build_many(["ts-plain", "ts-asan"])
+    b, b_asan = bl[0], bl[1]
     ctx.assumptions = ["allocation failure and faults that are not expressible as a failing system call are outside the domain",
                        "strace's injection replaces the call (not executed); `when` ordinals come from a dry run of the same scenario",
                        "stdout/stderr outputs writing into a pipe whose reader is gone (SIGPIPE from the kernel) are not among the listed sink states",
                        "memory-management calls (brk, mmap, munmap, mprotect) are never failed"]
     if ctx.replay:
         case, _ = load_replay(ctx.replay)
-        os_ = trace.OneShot(ctx.run, b, "replay")
+        os_ = trace.OneShot(ctx.run, b_asan if case.get("asan") else b, "replay")
         os_.write_scenario(scenario_ops(case["cfg"], os_.out))
         ctx.count("replay-1", ["replay"], sample={"config": case["cfg"]["name"], "fault": case["plan"]})
         ctx.nontrivial.add("replay-2")
@@ -229,7 +264,7 @@ def main():
     rng = random.Random(ctx.seed)
     tmp_out = os.path.join(ctx.run.dir, "os-w0", "out")
     nw = 16
-    _W.update({"ctx": ctx, "build": b})
+    _W.update({"ctx": ctx, "build": b, "build_asan": b_asan})
     # configs refer to the worker's private out dir: build them inside the worker shards
     shards = []
     for i in range(nw):
